@@ -505,6 +505,33 @@ def mon_C06(t):
                 out.append(fail(t, i, "rejected-with-space", "put of weight %d rejected although free space is %d after the evictions" % (w, mx - used_a)))
             if status == 3:
                 out.append(fail(t, i, "wrong-rejection-reason", "put of weight %d <= cache weight rejected as too heavy" % w))
+        # the eviction sample holds five keys whenever five charged keys remain ("samples smaller than five" only arise
+        # from small caches): replay of the sampler's visits and pops as the implementation logged them
+        orders, pops_all = r["oracle"]["orders"], r["oracle"]["pops"]
+        if orders:
+            charged = set(t.weights_before(i))
+            sample = set(orders[0])
+            gone = set()
+            oi = 1
+
+            def sample_short(when):
+                rest = charged - gone
+                if len(sample) < 5 and not rest <= sample:
+                    out.append(fail(t, i, "sample-smaller-than-five-while-keys-remain", "%s the eviction sample holds %d key ids %s although %d charged keys remain (%s never considered)" % (
+                        when, len(sample), sorted(sample), len(rest), sorted(rest - sample))))
+                    return True
+                return False
+            if not sample_short("initially"):
+                for pp in pops_all:
+                    if pp == -1 or pp in wa:
+                        break           # empty heap, or popped and not evicted (the put is rejected)
+                    gone.add(pp)
+                    sample.discard(pp)
+                    if oi < len(orders):
+                        sample |= set(orders[oi])
+                        oi += 1
+                    if sample_short("after evicting key id %d" % pp):
+                        break
         # victims are never hotter than the incoming key
         bloom = {h: b for h, b in r["oracle"]["bloom"]}
         seeds = t.cfg["seeds"]
